@@ -853,9 +853,18 @@ pub fn scenario(ex: &Explorer, frame: bool, plan: &[Vec<u8>]) -> Result<Rep, Str
 pub fn scenario_vals(ex: &Explorer, frame: bool, plan: &[(Vec<u8>, Vec<u8>)]) -> Result<Rep, String> {
     let mut script: Vec<u8> = if ex.base_cfg.proto >= 4 { vec![frame as u8] } else { vec![] };
     let (_c, _r, tr0) = ex.run(&script, 0);
-    let mut enabled = tr0.loop_end.as_ref().map(|x| x.0.clone()).ok_or("no LoopEnd")?;
+    let enabled = tr0.loop_end.as_ref().map(|x| x.0.clone()).ok_or("no LoopEnd")?;
     script.truncate(tr0.consumed);
+    extend_rep(ex, &Rep { script, k: 0, enabled }, plan)
+}
+
+/// continue an existing representative by further steps (same conventions as `scenario_vals`)
+pub fn extend_rep(ex: &Explorer, from: &Rep, plan: &[(Vec<u8>, Vec<u8>)]) -> Result<Rep, String> {
+    let mut script = from.script.clone();
+    let mut enabled = from.enabled.clone();
+    let k0 = from.k;
     for (k, (wants, vals)) in plan.iter().enumerate() {
+        let k = k0 + k;
         // first preference that is enabled
         let (idx, want) = wants
             .iter()
@@ -921,5 +930,78 @@ pub fn scenario_vals(ex: &Explorer, frame: bool, plan: &[(Vec<u8>, Vec<u8>)]) ->
         script.truncate(tr.consumed);
         enabled = tr.loop_end.as_ref().map(|x| x.0.clone()).ok_or("no LoopEnd")?;
     }
-    Ok(Rep { script, k: plan.len(), enabled })
+    Ok(Rep { script, k: k0 + plan.len(), enabled })
+}
+
+/// All stacks of exactly `depth` slots over one representative per kind class, built by push macros only (no memo,
+/// no aliasing); from every such state (and every shallower one on the way) the operand-consuming opcodes are run
+/// once. Complements the closure, whose box bounds the depth: every kind/MARK guard is exercised on every
+/// combination of operand classes up to `depth`.
+pub fn product_stacks(ex: &Explorer, depth: usize) -> Outcome {
+    let p = ex.base_cfg.proto;
+    // push macros: (label opcode sequence) each nets +1 slot of a distinct class
+    let mut macros: Vec<Vec<Vec<u8>>> = vec![
+        vec![vec![b'N']], // scalar
+        vec![vec![b'(']], // MARK
+        vec![vec![b'V']], // str
+        vec![vec![b'c']], // callable
+    ];
+    if p >= 1 {
+        macros.push(vec![vec![b']']]); // list
+        macros.push(vec![vec![b')']]); // tuple
+        macros.push(vec![vec![b'}']]); // dict
+        macros.push(vec![vec![b'c'], vec![b')'], vec![b'R']]); // instance: GLOBAL EMPTY_TUPLE REDUCE
+        macros.push(vec![vec![b'B', b'T']]); // bytes-like (BINBYTES, else BINSTRING)
+    } else {
+        macros.push(vec![vec![b'('], vec![b'l']]); // list
+        macros.push(vec![vec![b'('], vec![b't']]); // tuple
+        macros.push(vec![vec![b'('], vec![b'd']]); // dict
+        macros.push(vec![vec![b'c'], vec![b'('], vec![b't'], vec![b'R']]); // instance
+    }
+    if p >= 4 {
+        macros.push(vec![vec![0x8f]]); // set
+    }
+    let mut stats = Stats::default();
+    let mut found: BTreeMap<String, Found> = BTreeMap::new();
+    let (_c, _r, tr0) = ex.run(&if p >= 4 { vec![0u8] } else { vec![] }, 0);
+    let Some((en0, _)) = tr0.loop_end.clone() else {
+        return Outcome { stats, found: vec![], xval_outputs: vec![], witnesses: BTreeMap::new(), sample_scripts: vec![], runs: vec![] };
+    };
+    let mut level: Vec<Rep> = vec![Rep { script: if p >= 4 { vec![0u8] } else { vec![] }, k: 0, enabled: en0 }];
+    let mut samples = vec![];
+    for d in 1..=depth {
+        let next: Vec<Rep> = level
+            .par_iter()
+            .flat_map_iter(|r| {
+                macros
+                    .iter()
+                    .filter_map(|m| {
+                        let plan: Vec<(Vec<u8>, Vec<u8>)> = m.iter().map(|w| (w.clone(), vec![])).collect();
+                        extend_rep(ex, r, &plan).ok()
+                    })
+                    .collect::<Vec<_>>()
+            })
+            .collect();
+        // run the consumers from every state of this depth
+        let exps: Vec<Expansion> = next.par_iter().map(|r| { let mut e = ex.expand(r, true); e.succs.clear(); e }).collect();
+        for e in exps {
+            stats.add(&e.stats);
+            for f in e.found {
+                let key = format!("{}|{}", f.finding.prop, f.finding.class);
+                match found.get(&key) {
+                    Some(old) if (old.script.len(), &old.script) <= (f.script.len(), &f.script) => {}
+                    _ => {
+                        found.insert(key, f);
+                    }
+                }
+            }
+        }
+        stats.states += next.len() as u64;
+        if let Some(r) = next.get(next.len() / 3) {
+            samples.push((r.script.clone(), r.k));
+        }
+        stats.levels = d;
+        level = next;
+    }
+    Outcome { stats, found: found.into_values().collect(), xval_outputs: vec![], witnesses: BTreeMap::new(), sample_scripts: samples, runs: vec![] }
 }
